@@ -4,7 +4,7 @@
    input / capture functions (so any iteration order of the Python sets); `extract` instantiates them
    with the value table and node universe of a concrete source. *)
 From Coq Require Import List Bool Arith Lia.
-From IRV Require Import Base.Exn C18.Model C18.Spec C18.Struct C18.Proofs C18.Proofs2 C18.Proofs3 C18.Proofs4 C18.Proofs5 C18.Proofs6 C18.Proofs7 C18.Proofs8.
+From IRV Require Import Base.Exn C18.Model C18.Spec C18.Struct C18.Proofs C18.Proofs2 C18.Proofs3 C18.Proofs4 C18.Proofs5 C18.Proofs6 C18.Proofs7 C18.Proofs8 Gen.C18Gen C18.GenEquiv.
 Import ListNotations.
 
 (* The walk never runs out of the fuel the model gives it (so `Raise OtherError` in find_bounded is
@@ -535,3 +535,66 @@ Proof.
   intros v Hv. simpl in Hv. destruct Hv as [Hv|[Hv|[]]]; subst v; exists ex_g; (split; [right; left; reflexivity|]);
     vm_compute; tauto.
 Qed.
+
+(* ------------------------------------------------------------------ the model is the translated source
+   Gen/C18Gen.v is regenerated on every run from _extractor.py / _implicit_usage.py by the fail-closed
+   statement-by-statement translator in harness/props/c18.py (sets as duplicate-free lists, the value stack with its
+   top at the head, `continue`/`break`/walrus/`is None` guards as matches).  The theorems below say that the
+   translated code IS the hand model all other C18 theorems are about; an edit of the source changes the generated
+   definitions and these proofs have to go through again. *)
+
+(* the body of `while value_stack:` = Model.find_step (all_nodes, which the model does not carry, gets the newly
+   visited node appended) *)
+Theorem C18_translated_walk_body :
+  forall prod isinit nins nattrs collect parent value iv an vs vn vv,
+    let step := find_step prod isinit nins (ncaps_of nattrs collect parent) value vs (FS vv vn iv) in
+    gen_find_body prod isinit nins nattrs collect parent value (iv, an, vs, vn, vv) =
+    (f_inits (snd step), all_nodes_after prod value an vn vv, fst step, f_nodes (snd step), f_vals (snd step)).
+Proof. intros. apply gen_find_body_is_find_step. Qed.
+Print Assumptions C18_translated_walk_body.
+
+(* the whole loop = Model.find_loop: same visited values / nodes / initializers, and all_nodes = visited nodes *)
+Theorem C18_translated_walk :
+  forall prod isinit nins nattrs collect parent fuel iv an vs vn vv,
+    (forall n, In n an <-> In n vn) ->
+    match gen_find_loop prod isinit nins nattrs collect parent fuel (iv, an, vs, vn, vv),
+          find_loop prod isinit nins (ncaps_of nattrs collect parent) fuel vs (FS vv vn iv) with
+    | Some (iv', an', vs', vn', vv'), Some s' =>
+        iv' = f_inits s' /\ vn' = f_nodes s' /\ vv' = f_vals s' /\ vs' = [] /\ (forall n, In n an' <-> In n vn')
+    | None, None => True
+    | _, _ => False
+    end.
+Proof. intros. apply gen_find_loop_is_find_loop. assumption. Qed.
+Print Assumptions C18_translated_walk.
+
+(* captured values: per attribute in the code, per graph in the model; _collect_all_external_values is
+   Model.collect_external as a set (any iteration order) *)
+Theorem C18_translated_captures :
+  (forall nattrs collect parent n,
+     ncaps_of nattrs collect parent n = flat_map (collect parent) (flat_map attr_graphs (nattrs n))) /\
+  (forall owner parent g,
+     NoDup (gen_collect_external owner parent g) /\
+     forall shuffle, (forall l x, In x (shuffle l) <-> In x l) ->
+       forall w, In w (gen_collect_external owner parent g) <-> In w (collect_external owner shuffle parent g)).
+Proof. split; [intros; apply ncaps_of_flat | intros; apply gen_collect_external_is_model]. Qed.
+Print Assumptions C18_translated_captures.
+
+(* _collect_implicit_usages = Model.collect_implicit (Python's graph_stack is outermost-first) *)
+Theorem C18_translated_implicit_usages :
+  forall owner n sub graph_stack u,
+    gen_collect_implicit_usages owner (n_ins n) sub graph_stack u
+    = collect_implicit owner n sub (rev graph_stack) u.
+Proof. intros. apply gen_collect_implicit_is_model. Qed.
+Print Assumptions C18_translated_implicit_usages.
+
+(* the frontier validation after the walk (input_frontier / unspecified_graph_inputs) = Model.unspecified as a set;
+   the ValueError decision (non-empty list) is the same; sorted(..., key=name) is any permutation *)
+Theorem C18_translated_frontier :
+  forall prod isinit nins sorted_by_key inputs V,
+    (forall l x, In x (sorted_by_key l) <-> In x l) ->
+    (forall w, In w (gen_unspecified isinit sorted_by_key (gen_input_frontier prod nins V) inputs)
+               <-> In w (unspecified prod isinit nins inputs V)) /\
+    (gen_unspecified isinit sorted_by_key (gen_input_frontier prod nins V) inputs = []
+     <-> unspecified prod isinit nins inputs V = []).
+Proof. intros prod isinit nins sorted_by_key inputs V H. apply (gen_frontier_is_model prod isinit nins); exact H. Qed.
+Print Assumptions C18_translated_frontier.
